@@ -58,6 +58,33 @@ def run(ctx):
     ]:
         kind, val = outcome(text)
         add(reason, val if kind == "raise" else None, cls)
+    # RegexNotMatchError itself: constructed (as every recogniser constructs it on a miss) over strings and patterns that
+    # contain fragments of the formatting mini-languages, and raised by the real recognisers on such lines
+    from chartparse.exceptions import RegexNotMatchError
+    from chartparse.instrument import NoteEvent
+    from chartparse.globalevents import LyricEvent
+    frags = ["plain", "{}", "{0}", "{name}", "{!r}", "{0.__class__}", "100% done", "%s", "%d %(a)s", "%", "%%", "{{x}}", "$x ${y}", "\\n\\x41\\",
+             "it's", 'say "x"', "", " ", "\u00e9\u4e2d\U0001f3b8", "}{", "crowd {} on"]
+    pats = [r"^\s*?(\d+?) = N ([0-7]) (\d+?)\s*?$", "{}", "%s", "a{2,3}", "[%]"]
+    for fs in frags:
+        for rx in pats:
+            e = exc(lambda: (_ for _ in ()).throw(RegexNotMatchError(rx, fs)))
+            recs.append({"id": f"e{len(recs)}", "props": ["X03"], "reason": "rnm-string", "cls": type(e).__name__, "wantcls": "RegexNotMatchError",
+                         "msg": cps(str(e)), "s": cps(fs), "rx": cps(rx), "n": []})
+            ctx.evaluations += 1
+    for rx in pats:
+        e = exc(lambda: (_ for _ in ()).throw(RegexNotMatchError(rx)))
+        recs.append({"id": f"e{len(recs)}", "props": ["X03"], "reason": "rnm-regex-only", "cls": type(e).__name__, "wantcls": "RegexNotMatchError", "msg": cps(str(e)), "s": [], "rx": cps(rx), "n": []})
+        e = exc(lambda: (_ for _ in ()).throw(RegexNotMatchError(rx, frags)))
+        recs.append({"id": f"e{len(recs)}", "props": ["X03"], "reason": "rnm-collection", "cls": type(e).__name__, "wantcls": "RegexNotMatchError", "msg": cps(str(e)), "s": [], "rx": cps(rx), "n": cps(str(len(frags)))})
+        ctx.evaluations += 2
+    for fs in frags:
+        for kind_cls in (NoteEvent.ParsedData, LyricEvent.ParsedData):
+            line = "0 = E " + fs
+            e = exc(kind_cls.from_chart_line, line)
+            recs.append({"id": f"e{len(recs)}", "props": ["X03"], "reason": "rnm-string", "cls": type(e).__name__ if e is not None else "none", "wantcls": "RegexNotMatchError",
+                         "msg": cps(str(e)) if e is not None else [], "s": cps(line), "rx": cps(kind_cls._regex), "n": []})
+            ctx.evaluations += 1
     ctx.sample({"reason": recs[0]["reason"], "message": "".join(chr(c) for c in recs[0]["msg"])})
     by_id = {x["id"]: x for x in recs}
     for rid, p, clause in ctx.validate(recs):
